@@ -201,6 +201,17 @@ def runFlaky (flavour : String) (stream : Bytes) (pieces : List (List Bytes × T
     if flavour == "s" || flavour == "S" then flakyS fuel extra .initial { cap := DEFAULT_CAP, data := [] } cs t more
     else flakyA fuel extra .initial [] cs t more
 
+/-- the same pieces through the functions the multi-failure theorems are about (`recvRetryA/S`,
+`sessionRetryA/S` in `Mpd/Conn.lean`): a caller that calls again after every reported failure; the
+reports themselves are not part of the result -/
+def runRetry (flavour : String) (stream : Bytes) (pieces : List (List Bytes × Term)) (extra : Nat) : List Item :=
+  let fuel := stream.length + 2 + extra + pieces.length
+  match pieces.map (fun p => (p.1.filter (!·.isEmpty), p.2)) with
+  | [] => []
+  | (cs, t) :: more =>
+    if flavour == "s" || flavour == "S" then sessionRetryS fuel extra .initial { cap := DEFAULT_CAP, data := [] } cs t more
+    else sessionRetryA fuel extra .initial [] cs t more
+
 /-- remove, in order, one `io<k>` item per scripted failure -/
 def dropFaultItems : List String → List Nat → List String
   | l, [] => l
@@ -324,6 +335,10 @@ def handle (toks : List String) (impl : String) : Verdict :=
         else if (clean.drop whole.length).any (fun x => some x != whole.getLast?) then
           "fail:result-after-the-end-differs-from-the-end"
         else if !(agreesWithRef whole (refItems stream) term) then "fail:differs-from-line-grammar"
+        -- the calls without the failure reports are exactly the session of a caller that retries, as
+        -- computed by `sessionRetryA/S` (every report used up one of the calls after the end)
+        else if clean != (runRetry fl stream pieces (extra - (implList.length - clean.length))).map fmtItem then
+          "fail:differs-from-the-retry-session"
         else "ok"
       { model := model ++ "#" ++ reads, oracle, branch := s!"flaky{kinds.length}-{branchOf items stream segf.length}" }
     | _, _, _, _ => bad "proto.flaky-args"
